@@ -142,8 +142,12 @@ def u8_edit_cases(rng, n):
         parts = []
         for _ in range(1 + rng.below(7)):
             k = rng.below(10)
-            if k < 4: parts.append(motion(rng))
-            elif k < 8: parts.append(edit(rng))
+            if k < 3: parts.append(motion(rng))
+            elif k < 7: parts.append(edit(rng))
+            elif k == 7:
+                # character-wise yank / delete of multi-byte text, put, then a cursor-relative command
+                parts.append(rng.pick([b"0", b"", b"l", b"w"]) + rng.pick([b"2x", b"3x", b"yl", b"y2l", b"dw", b"yw", b"d3l"]) + rng.pick([b"", b"0", b"l", b"w"]) +
+                             rng.pick([b"p", b"P", b"2p", b"3P"]) + rng.pick([b"rX", b"x", b"~", b"iZ\x1b", b"dl"]))
             else:
                 parts.append((":%ss/%s/%s/%s\n" % (rng.choice(["", "%"]), rng.choice(gen_ex.U8_PATS), rng.choice(gen_ex.U8_REPS), rng.choice(["", "g"]))).encode())
         ks = b"".join(parts)
@@ -226,6 +230,16 @@ def search_cases(rng, n, maxcmds=8):
         f = gen_file(rng, long=(rng.below(6) == 0))
         rows, cols = geometry(rng)
         parts = []
+        if i % 20 == 11:
+            # how the pattern is cut out of the typed text: escaped delimiters, escaped backslashes before the
+            # closing delimiter, a closing delimiter followed by an offset
+            f = b"start\na/b x?y\na\\b\na/b\n\\ end\\\na?b\n"
+            for _ in range(1 + rng.below(4)):
+                d = rng.pick([b"/", b"?"])
+                pat = rng.pick([b"a\\\\", b"\\\\", b"a\\" + d, b"a\\" + d + b"b", b"\\\\\\" + d, b"x\\?y", b"a\\\\b", b"end\\\\", b"a", b"\\\\ end"])
+                parts.append(rng.pick([b"1G", b"G", b"", b"3G"]) + d + pat + rng.pick([d, d, b"", d + b"1", d + b"-1"]) + b"\n")
+                if rng.below(2): parts.append(rng.pick([b"n", b"N"]))
+            out.append(case(f, b"".join(parts), rows, cols)); continue
         for _ in range(1 + rng.below(maxcmds)):
             k = rng.below(12)
             c = cnt(rng) if rng.below(4) == 0 else b""
@@ -275,7 +289,8 @@ def repeat_cases(rng, n):
             b = pre + ch + mid + ch + mid + ch + tail
         else:
             # macro: the register text is a line of the file, yanked into register q by "qy$ / "qyy
-            macro = rng.pick([b"x", b"dw", b"ihi \x1b", b"A!\x1b", b"wx", b"2x", b"dd", b"rZl", b"~~", b"Jx", b"x.", b"A1\x1b.A2\x1b", b"dwwP", b"ia\x1b.l"])
+            macro = rng.pick([b"x", b"dw", b"ihi \x1b", b"A!\x1b", b"wx", b"2x", b"dd", b"rZl", b"~~", b"Jx", b"x.", b"A1\x1b.A2\x1b", b"dwwP", b"ia\x1b.l",
+                              "Aéé\x1b0xx".encode(), "i中\x1bx".encode(), "r€lx".encode(), "A𝄞!\x1bhx".encode(), "fédw".encode(), "ié\x1b.x".encode()])
             text = macro.replace(b"\x1b", b"\x16\x1b")
             setup = b"O" + text + b"\x1b^\"qy$dd"
             k = rng.pick([1, 1, 2])
